@@ -90,6 +90,9 @@ def _worker_init(modname, tier, seed, c11=False):
     _W["mod"] = mod
     _W["obs"] = {o.key: o for o in mod.obligations(tier, seed)}
     _W["tier"], _W["seed"] = tier, seed
+    from . import engine as _E
+
+    _E.CROSS["every"] = 25 if tier == "thorough" else 100
     _warm()
 
 
@@ -227,6 +230,10 @@ def _run_one(key):
             out["error"] = "%s (message not printable) at %s" % (type(e).__name__, " <- ".join(frames[-6:]))
     out["wall_s"] = round(time.time() - t0, 2)
     out["covered"] = sorted(hook.COVERED)
+    from . import engine as _E
+
+    out["cross_checked"] = _E.CROSS["checked"]
+    _E.CROSS["checked"] = 0
     return out
 
 
@@ -354,6 +361,7 @@ def write_evidence(mod, pid, tier, seed, results, wall, nviol, known_seen, harne
             "sat": tot("sat"),
             "solver_s": round(tot("solver_s"), 2),
             "inconclusive": sum(len(r["inconclusive"]) for r in results),
+            "cross_solver_checked": sum(r.get("cross_checked", 0) for r in results),
             "harness_errors": [{"obligation": r["key"], "error": (r["error"] or "")[:400]} for r in harness[:10]],
             "known_findings_seen": known_seen,
             "functions_encoded": covered,
